@@ -231,8 +231,16 @@ func callExpr(name string, params []Kind) string {
 // buildBatch renders the batch source; lineOwner maps line numbers (1-based) to program indices.
 func buildBatch(progs []*Prog) (string, []int) {
 	var b strings.Builder
-	b.WriteString(batchPrelude)
-	owner := make([]int, strings.Count(batchPrelude, "\n")+1)
+	prelude := batchPrelude
+	for _, p := range progs {
+		if p.Imports != "" {
+			// the batch is linked against the compiler's own testdata package (helpers that the compiler inlines)
+			prelude = strings.Replace(prelude, "import (\n", "import (\n\t\"github.com/nspcc-dev/neo-go/pkg/compiler/testdata/inline\"\n", 1)
+			break
+		}
+	}
+	b.WriteString(prelude)
+	owner := make([]int, strings.Count(prelude, "\n")+1)
 	for i := range owner {
 		owner[i] = -1
 	}
@@ -245,14 +253,15 @@ func buildBatch(progs []*Prog) (string, []int) {
 	for _, p := range progs {
 		k := p.K
 		add(k, fmt.Sprintf("// ---- program %d (%s)\n", k, p.Kind))
-		add(k, p.Plain)
+		// (_deploy is a reserved name for the compiler; in the batch every program has its own)
+		add(k, strings.ReplaceAll(p.Plain, "func _deploy(", fmt.Sprintf("func p%d_deploy(", k)))
 		if !strings.HasSuffix(p.Plain, "\n") {
 			add(k, "\n")
 		}
 		add(k, fmt.Sprintf("func p%d_init() {\n%s}\n", k, p.Init))
 		add(k, fmt.Sprintf("func p%d_reset() {\n%sp%d_init()\n}\n", k, p.ResetP, k))
 		if p.Checked != "" {
-			add(k, p.Checked)
+			add(k, strings.ReplaceAll(p.Checked, "func _deploy(", fmt.Sprintf("func c%d_deploy(", k)))
 			add(k, fmt.Sprintf("func c%d_init() {\n%s}\n", k, p.InitC))
 			add(k, fmt.Sprintf("func c%d_reset() {\n%sc%d_init()\n}\n", k, p.ResetC, k))
 		}
@@ -293,7 +302,20 @@ func runBatch(dir string, progs []*Prog) (map[string]goRes, map[int]string, erro
 	if err := os.MkdirAll(dir, 0o755); err != nil {
 		return nil, nil, err
 	}
-	if err := os.WriteFile(filepath.Join(dir, "go.mod"), []byte("module batch\n\ngo 1.23\n"), 0o644); err != nil {
+	linked := false
+	for _, p := range progs {
+		if p.Imports != "" {
+			linked = true
+		}
+	}
+	gomod := "module batch\n\ngo 1.23\n"
+	if linked {
+		gomod = "module batch\n\ngo 1.25.0\n\nrequire github.com/nspcc-dev/neo-go v0.0.0\n\nreplace github.com/nspcc-dev/neo-go => /repo\n"
+		if sum, err := os.ReadFile("/repo/go.sum"); err == nil {
+			os.WriteFile(filepath.Join(dir, "go.sum"), sum, 0o644)
+		}
+	}
+	if err := os.WriteFile(filepath.Join(dir, "go.mod"), []byte(gomod), 0o644); err != nil {
 		return nil, nil, err
 	}
 	for attempt := 0; attempt < 6; attempt++ {
@@ -309,7 +331,10 @@ func runBatch(dir string, progs []*Prog) (map[string]goRes, map[int]string, erro
 		}
 		cmd := exec.Command("go", "run", "-gcflags=-e", ".")
 		cmd.Dir = dir
-		env := []string{"GOFLAGS=-mod=mod", "GOPROXY=off", "GOTOOLCHAIN=local", "GO111MODULE=on"}
+		env := []string{"GOFLAGS=-mod=mod", "GOPROXY=off", "GO111MODULE=on"}
+		if !linked {
+			env = append(env, "GOTOOLCHAIN=local")
+		}
 		for _, e := range os.Environ() {
 			if strings.HasPrefix(e, "GOFLAGS=") || strings.HasPrefix(e, "GOPROXY=") || strings.HasPrefix(e, "GOTOOLCHAIN=") || strings.HasPrefix(e, "GOMEMLIMIT=") {
 				continue
